@@ -1,5 +1,6 @@
 // world.cpp -- event loop, network, fault operators, receiver and its oracles
 #include "world_int.h"
+#include "sched.h"
 
 #include <cstring>
 #include <deque>
@@ -103,6 +104,7 @@ World::World(const Plan& p)
     typedViews = plan.cfgGet("typed", 0) != 0 || is("C03") || is("C15") || is("C13") || is("C16");
     plife = static_cast<uint64_t>(plan.cfgGet("plife", 0));
     clockJumpSeed = static_cast<uint64_t>(plan.cfgGet("clockjump", 0));
+    shareInput = plan.cfgGet("shareinput", 0) != 0;
     if (clockJumpSeed)
         fault("wall-clock-jumps");
     lib::setHostileLocale(is("C15") && plan.cfgGet("locale", 0) != 0);
@@ -660,9 +662,23 @@ void World::deliver(InFlight& f)
     res.deliveries++;
     const size_t n = f.bytes.size();
     // exact-size heap copy, released right after decode returns
-    uint8_t* buf = new uint8_t[n ? n : 1];
-    if (n)
-        memcpy(buf, f.bytes.data(), n);
+    bool sharedBuf = false;
+    uint8_t* buf = nullptr;
+#if defined(SIM_VARIANT_SCHED)
+    if (shareInput && n)
+    {
+        // C19: the very same receive buffer for every thread that is handed these bytes (sched.h, internInput)
+        buf = const_cast<uint8_t*>(sched::internInput(f.bytes.data(), n));
+        sharedBuf = true;
+        probe("receive-buffer-shared-between-threads");
+    }
+#endif
+    if (!sharedBuf)
+    {
+        buf = new uint8_t[n ? n : 1];
+        if (n)
+            memcpy(buf, f.bytes.data(), n);
+    }
     const bool passNull = (n == 0 && plan.cfgGet("nullbuf", 0));
     std::vector<lib::PacketRef> out = dec->decode(passNull ? nullptr : buf, n, f.allocFail);
     const uint64_t edges = dec->lastCallEdges();
@@ -697,7 +713,8 @@ void World::deliver(InFlight& f)
         violate("life.fork-diverged", "a copy of the decoder given the same buffer returned other packets than the original");
     }
     const bool written = n && memcmp(buf, f.bytes.data(), n) != 0;
-    delete[] buf;
+    if (!sharedBuf)
+        delete[] buf;
     if (written && is("C02"))
         violate("mem.input-written", "decode modified its input buffer");
 
@@ -918,14 +935,24 @@ void World::deliver(InFlight& f)
         else
             probe("tecmp-unspecified");
         // the static entry point must agree with the routed one
-        uint8_t* b2 = new uint8_t[n ? n : 1];
-        memcpy(b2, f.bytes.data(), n);
+        uint8_t* b2 = nullptr;
+#if defined(SIM_VARIANT_SCHED)
+        if (shareInput && n)
+            b2 = const_cast<uint8_t*>(sched::internInput(f.bytes.data(), n));
+#endif
+        const bool b2Shared = b2 != nullptr;
+        if (!b2Shared)
+        {
+            b2 = new uint8_t[n ? n : 1];
+            memcpy(b2, f.bytes.data(), n);
+        }
         auto direct = lib::Dec::tecmpDecode(b2, n);
         // the same storage decoded once more: still the packets of the message that was put there (a decoder has no
         // business writing to its input; a second look at the same capture buffer is what a replaying tool does)
         auto again = lib::Dec::tecmpDecode(b2, n);
         const bool inputWritten = n && memcmp(b2, f.bytes.data(), n) != 0;
-        delete[] b2;
+        if (!b2Shared)
+            delete[] b2;
         res.apiCalls += 2;
         if (inputWritten)
             violate("tecmp.input-written", "TECMP::Decoder::Decode modified the buffer it was given");
@@ -945,6 +972,17 @@ void World::deliver(InFlight& f)
             for (size_t i = 0; i < direct.size(); ++i)
                 if (lib::digest(direct[i]) != lib::digest(out[i]))
                     violate("tecmp.field.paths-differ", "TECMP::Decoder::Decode and Decoder::decode return different packets");
+    }
+    if (ref.st.size() >= 64 && !probed64)
+    {
+        size_t open = 0;
+        for (auto& kv : ref.st)
+            open += kv.second.open && !kv.second.unknown;
+        if (open >= 64)
+        {
+            probed64 = true;
+            probe("64-or-more-endpoints-mid-message-at-once");
+        }
     }
     // ---------------- C17: pending table
     if (is("C17"))
@@ -1095,9 +1133,13 @@ void World::compareStatus(const char* when)
         }
         if (icnt >= 2)
             probe("device-with-multiple-interfaces");
+        if (icnt >= 33)
+            probe("device-with-33-or-more-interfaces");
     }
     if (cnt >= 2)
         probe("multiple-devices-tracked");
+    if (cnt >= 33)
+        probe("33-or-more-devices-tracked");
 }
 
 void World::finish()
